@@ -119,7 +119,12 @@ def cells():
         return True
 
     inv_bad = {"other-parameter": lambda x: True, "self-and-other": lambda self, x: True, "coroutine-function": acond,
-               "coroutine-function-no-self": acond0}
+               "coroutine-function-no-self": acond0,
+               # every parameter kind a condition can declare besides `self`
+               "self-and-keyword-only": lambda self, *, limit: True, "keyword-only": lambda *, limit: True,
+               "self-and-varargs": lambda self, *args: True, "self-and-varkw": lambda self, **kwargs: True,
+               "varargs": lambda *args: True, "varkw": lambda **kwargs: True, "positional-only-other": lambda x, /: True,
+               "self-positional-only-and-other": lambda self, /, y: True}
     inv_ok = {"self": lambda self: True, "no-parameter": lambda: True}
     for check_on in ("default", "SETATTR", "ALL"):
         kw = {} if check_on == "default" else {"check_on": getattr(icontract.InvariantCheckEvent, check_on)}
